@@ -163,6 +163,7 @@ class EngineA:
         self.steer = set(steer)
         self._integer = False
         self._val_scale = 1.0
+        self._maxext = MAX_EXTENT
 
     # ---------------------------------------------------------------- generation
     def run(self, run_seed: int, tier: str) -> RunResult:
@@ -177,6 +178,11 @@ class EngineA:
         if sw.random() < 0.04:
             shape = []  # a tensor constructed without arguments: everything comes from growth
             pattern = "empty"
+        # a few runs use tensors with several hundred elements, and requests that name several hundred positions
+        large = sw.random() < 0.06
+        if large:
+            shape = [sw.randint(13, 24), sw.randint(13, 24)] if sw.random() < 0.6 else [sw.randint(6, 9) for _ in range(3)]
+            pattern = weighted(sw, [("empty", 1), ("full", 1), ("random", 4)])
         positions = list(itertools.product(*[range(s) for s in shape]))
         if pattern == "empty":
             nz = []
@@ -185,7 +191,7 @@ class EngineA:
         elif pattern == "single":
             nz = [sw.choice(positions)]
         else:
-            k = sw.randint(1, min(len(positions), 10))
+            k = sw.randint(1, min(len(positions), 300 if large else 10))
             nz = sw.sample(positions, k)
         nz = list(nz)
         sw.shuffle(nz)  # stored order of the sparse tensor: arbitrary
@@ -211,6 +217,8 @@ class EngineA:
         }
         if sum(cfg["w_ops"].values()) == 0:
             cfg["w_ops"]["w_subs"] = 1
+        if large:
+            cfg.update({"large": True, "n_steps": sw.randint(3, 9), "p_grow": sw.choice([0.0, 0.05]), "p_ordergrow": 0.0})
         res.init = cfg
         self._integer = integer
         self._val_scale = val_scale
@@ -251,6 +259,7 @@ class EngineA:
         ttb = self.ttb
         shape = tuple(cfg["shape"])
         m = Model(shape)
+        self._maxext = max([MAX_EXTENT] + [s + 1 for s in shape]) if cfg.get("large") else MAX_EXTENT
         for p, v in zip(cfg["subs"], cfg["vals"]):
             m.set(p, v)
         if len(shape) == 0:
@@ -276,8 +285,8 @@ class EngineA:
     # --------------------------------------------------------------- generators
     def _int_index(self, m: Model, d: int, g, cfg, write: bool):
         ext = m.shape[d]
-        if write and g.random() < cfg["p_grow"] and ext < MAX_EXTENT:
-            return g.randint(ext, min(MAX_EXTENT - 1, ext + 1))
+        if write and g.random() < cfg["p_grow"] and ext < self._maxext:
+            return g.randint(ext, min(self._maxext - 1, ext + 1))
         i = g.randrange(ext)
         if g.random() < cfg["p_neg"]:
             return i - ext
@@ -286,8 +295,8 @@ class EngineA:
     def _slice(self, m: Model, d: int, g, cfg, write: bool):
         ext = m.shape[d]
         form = g.choice(["all", "from", "to", "both", "both"])
-        if write and g.random() < cfg["p_grow"] and ext < MAX_EXTENT:
-            stop = g.randint(ext + 1, min(MAX_EXTENT, ext + 2))
+        if write and g.random() < cfg["p_grow"] and ext < self._maxext:
+            stop = g.randint(ext + 1, min(self._maxext, ext + 2))
             start = g.randint(0, stop - 1)
             return slice(start if g.random() < 0.7 else None, stop, None)
         if form == "all":
@@ -310,8 +319,8 @@ class EngineA:
     def _list(self, m: Model, d: int, g, cfg, write: bool):
         ext = m.shape[d]
         hi = ext
-        if write and g.random() < cfg["p_grow"] and ext < MAX_EXTENT:
-            hi = min(MAX_EXTENT, ext + 1)
+        if write and g.random() < cfg["p_grow"] and ext < self._maxext:
+            hi = min(self._maxext, ext + 1)
         if hi < 2:
             return None
         k = g.randint(2, min(hi, 3))
@@ -399,7 +408,7 @@ class EngineA:
             key = [self._int_index(m, d, g, cfg, False) for d in range(N)]
             return {"op": op, "key": enc(key)}
         if op == "r_subs":
-            p = g.randint(1, 4)
+            p = g.randint(1, 4) if not (cfg.get("large") and g.random() < 0.6) else g.randint(200, 420)
             subs = [[g.randrange(m.shape[d]) for d in range(N)] for _ in range(p)]
             return {"op": op, "subs": subs}
         if op in ("r_lin", "w_lin"):
@@ -415,7 +424,7 @@ class EngineA:
             elif form in ("list", "array"):
                 if n < 2:
                     return None
-                cnt = g.randint(2, min(n, 4))
+                cnt = g.randint(2, min(n, 4)) if not (cfg.get("large") and g.random() < 0.6) else g.randint(min(n, 200), min(n, 420))
                 ks = g.sample(range(n), cnt)
                 if g.random() < cfg["p_neg"]:
                     j = g.randrange(cnt)
@@ -438,7 +447,7 @@ class EngineA:
                 else:
                     key = slice(a, b, None)
                     count = b - a
-                if count > 12:
+                if count > (1200 if cfg.get("large") else 12):
                     return None
             step = {"op": op, "form": form, "key": enc(key)}
             if write:
@@ -460,7 +469,7 @@ class EngineA:
             extra = 0
             if g.random() < cfg["p_ordergrow"] and N < MAX_ORDER:
                 extra = 1
-            p = g.randint(1, 4)
+            p = g.randint(1, 4) if not (cfg.get("large") and g.random() < 0.6) else g.randint(200, 420)
             rows = set()
             for _ in range(p):
                 row = []
@@ -485,7 +494,7 @@ class EngineA:
             cnt = 1
             for lst in lists:
                 cnt *= len(lst)
-            if cnt == 0 or cnt > 24:
+            if cnt == 0 or cnt > (1200 if cfg.get("large") else 24):
                 return None
             rshape = [len(lists[d]) for d in kept]
             kind = weighted(g, [("scalar", 3), ("zero", 2), ("tensor", 3)])
@@ -875,7 +884,7 @@ class EngineA:
             return "skip"
         if any(k < 0 and (d >= m.order or -k > m.shape[d]) for d, k in enumerate(key)):
             return "skip"
-        if any(k >= MAX_EXTENT + 2 for k in key):
+        if any(k >= self._maxext + 2 for k in key):
             return "skip"
         bc, bs = dict(m.cells), list(m.shape)
         newshape = m.region_target_shape(key)
@@ -904,7 +913,7 @@ class EngineA:
         ncol = len(subs[0])
         if ncol < m.order or ncol > MAX_ORDER or any(len(r) != ncol for r in subs):
             return "skip"
-        if len({tuple(r) for r in subs}) != len(subs) or any(k < 0 or k >= MAX_EXTENT + 2 for r in subs for k in r):
+        if len({tuple(r) for r in subs}) != len(subs) or any(k < 0 or k >= self._maxext + 2 for r in subs for k in r):
             return "skip"
         if isinstance(vals, list) and len(vals) != len(subs):
             return "skip"
@@ -973,13 +982,13 @@ class EngineA:
                     return False
                 if new and k.stop is None:
                     return False
-                if k.stop is not None and k.stop > MAX_EXTENT + 2:
+                if k.stop is not None and k.stop > self._maxext + 2:
                     return False
             elif isinstance(k, list):
-                if len(k) < 2 or len(set(k)) != len(k) or any(j < 0 or j > MAX_EXTENT + 2 for j in k):
+                if len(k) < 2 or len(set(k)) != len(k) or any(j < 0 or j > self._maxext + 2 for j in k):
                     return False
             else:
-                if k > MAX_EXTENT + 2:
+                if k > self._maxext + 2:
                     return False
                 if k < 0 and (new or -k > m.shape[d]):
                     return False
